@@ -218,9 +218,13 @@ def strip_hints(d, node=None):
             for b in n.branches:
                 if refavro.branch_name(b) == d[0]:
                     return strip_hints(d[1], b)
-        for b in n.branches:
-            if refavro.conforms(b, d):
-                return strip_hints(d, b)
+        # same preference as the independent encoder: a branch that accounts for every key of a
+        # dict first (a record branch whose fields are all optional "conforms" to any dict, but
+        # hints below keys it does not know would be left in place)
+        for strict in (True, False):
+            for b in n.branches:
+                if refavro.conforms(b, d, strict_keys=strict):
+                    return strip_hints(d, b)
         return d
     if k == "record" and isinstance(d, dict):
         out = {kk: v for kk, v in d.items() if kk != "-type"}
